@@ -31,11 +31,12 @@ def spec(tier, seed):
     for k in range(8):
         lo, hi = k << 13, ((k + 1) << 13) - 1
         hs.append(Harness(f"c24_shape_n{k}", obligation=f"for all hash:u16, rf:u8, n in [{lo},{hi}]: len==min(rf,n,12), all < n, pairwise distinct, first == hash % n, empty iff n==0||rf==0, no panic",
-                          encodes=enc, bounds="whole input space of this slice; unwind 14 (MAX_REPLICATION_FACTOR=12)", timeout_s=900))
+                          encodes=enc, bounds="whole input space of this slice; unwind 14 (MAX_REPLICATION_FACTOR=12)", timeout_s=1500,
+                          tiers=("thorough",) if k == 0 else ("quick", "thorough")))
     for k in range(8):
         lo, hi = k << 13, ((k + 1) << 13) - 1
         hs.append(Harness(f"c24_prefix_n{k}", obligation=f"for all hash, rf1<=rf2, n in [{lo},{hi}]: f(h,n,rf1) is a prefix of f(h,n,rf2)",
-                          encodes=enc, bounds="whole input space of this slice; unwind 14", timeout_s=1500, tiers=("thorough",) if k not in (0, 7) else ("quick", "thorough")))
+                          encodes=enc, bounds="whole input space of this slice; unwind 14", timeout_s=3000, tiers=("thorough",)))
     hs += [
         Harness("c24_small_n_all", obligation="n <= 64, all hashes and rf: all shape clauses", encodes=enc, bounds="n<=64; unwind 14", timeout_s=600),
         Harness("c24_determinism", obligation="two calls with equal arguments return equal results", encodes=enc, bounds="whole input space; unwind 14", timeout_s=900, tiers=("thorough",)),
